@@ -49,6 +49,7 @@ import SwcVerif.Model.AlgoRunAscLex
 import SwcVerif.Model.Assemble
 import SwcVerif.Model.AlgoRunBranchTree
 import SwcVerif.Model.AlgoRunWriter
+import SwcVerif.Model.AlgoRunCtor
 
 def dispatch (op : String) (args : List String) : String :=
   match op with
@@ -128,6 +129,8 @@ def dispatch (op : String) (args : List String) : String :=
   | "swcread" => SwcText.handleRead args
   | "swcwrite" => SwcText.handleWrite args
   | "gswcwrite" | "gioswc" => AlgoRun.handleWriter op args
+  | "gwrap" => AlgoRun.handleWrap args
+  | "gcopying" => AlgoRun.handleCopying args
   | _ => "bad-op"
 
 partial def loop (h : IO.FS.Stream) (out : IO.FS.Stream) : IO Unit := do
